@@ -3,10 +3,68 @@ from .props import register
 register('C10', 'proof',
          'Per-call contracts transcribed from the statement and proved for all inputs on the real source: the time-out '
          'predicates of start and stop commands (TIMED_OUT iff the tick margin, resp. margin + startsecs/stopwaitsecs, is '
-         'exceeded on the target counter; wait_exit is the only unbounded IN_PROGRESS).',
-         not_decided=['end-to-end bound as one theorem (composition with C07 and Supervisor startretries)'],
+         'exceeded on the target counter; wait_exit is the only unbounded IN_PROGRESS; both overrides proved equal to the '
+         'formula assumed for the abstract ProcessCommand.timed_out); fail_command emits exactly one '
+         'force_process_state with FATAL (start job) / STOPPED (stop job); force_process_state builds the forced payload '
+         '(forced, state, reason, target identifier, time of the last event), applies it locally through the fsm and then '
+         'publishes the same payload; both propagate the re-entrancy discipline of the call-out.',
+         not_decided=['end-to-end bound as one theorem (composition with C07 and Supervisor startretries)',
+                      'clause 2 ApplicationJobs.check and clause 4 on_instances_invalidation: contract written '
+                      '(contracts/wip_c10_check.txt) but not converged under the honest re-entrancy discipline - NOT claimed; '
+                      'safe:ValueError@check:582 is refuted there and reproduced natively (findings/C10_check_valueerror_demo.py)',
+                      'clause 5 measure lemma: not stated as a lemma; it is the arithmetic content of the timed_out contracts',
+                      're-entrancy exclusion: Stopper.after -> starter.start_process -> add_commands may add a command to the '
+                      'plan of a Starter job during a Stopper chain (outside the assumed call-out discipline)'],
          assumptions=['the target tick counter advances while the target is RUNNING (else C07 invalidates it)',
-                      'ints are mathematical; handlers are atomic (single Supervisor thread)'])
+                      'ints are mathematical; handlers are atomic (single Supervisor thread)',
+                      'RE-ENTRANT CALL-OUT: FiniteStateMachine.on_process_state_event is taken by the assumed contract '
+                      'FsmOnProcessStateEvent (contracts/assumed_repo.py): nothing is framed; for every ApplicationJobs alive before the '
+                      'call the re-entered Starter/Stopper keeps its in-flight list object, and its plan only shrinks: remaining '
+                      'groups are the same list objects, sequence numbers leave in pickup order or all at once (ABORT/STOP)',
+                      'rpc_handler.send_* are effects only (transport outside the model)',
+                      'shape validity: one Supvisors root; the local identifier is a key of context.instances'])
+register('C03', 'proof',
+         'Sequencing discipline proved per call on the real source. ApplicationJobs.next (start variant, pickup_logic = min '
+         'resolved from the class): nothing is triggered and nothing changes while a command is in flight; sequence numbers '
+         'leave the plan in increasing order (every popped number is below every remaining one), the remaining groups are '
+         'the same list objects; every command of the popped group is passed to process_job exactly once in that call '
+         '(per-iteration clause); the call returns with a command in flight or an empty plan. Completion criterion '
+         'ProcessStartCommand.on_event: full functional postcondition (SUCCESS iff RUNNING without awaited exit or expected '
+         'EXITED with wait_exit; FAILED on FATAL / unexpected EXITED / STOPPED / STOPPING / UNKNOWN; BACKOFF restarts the '
+         'margin). process_failure: ABORT / STOP wipe the plan (STOP sets stop_request), CONTINUE / optional leave it. The '
+         'call-out obligation of process_job (a job with commands still to trigger must look in progress when the Commander '
+         'can be re-entered) is REFUTED on the unchanged tree: genuine defect, reproduced natively.',
+         not_decided=['the order of requests relative to the TRUE process states under all timings / partitions',
+                      'ghost history Orig/Started/Done: not built. It would have added, across calls, "a command in flight '
+                      'belongs to the LAST popped group and every command of an earlier group has left the in-flight list" as '
+                      'an object invariant; the per-call clauses give: pop only when nothing is in flight + pickup order + all '
+                      'commands of a group triggered in the same call. With the weak re-entrancy discipline assumed for '
+                      'process_job, "commands in flight after next() come from the last popped group" is not provable',
+                      'Commander.next (application level, clause 3), Starter.store_application / start_applications (sequence 0 '
+                      'never planned, clause 1), Starter.after, ApplicationJobs.on_event / check / on_instances_invalidation: no '
+                      'contract yet (store_application needs comprehensions that allocate objects, not supported by the engine)',
+                      'ApplicationStartJobs.process_job is taken by contract (assumed): its placement callees belong to C04/C14/C16',
+                      'termination of the recursion of next() (len(planned_jobs) decreases) is not an engine obligation',
+                      'add_commands (user start_process merged into a running job) is outside the statement scope'],
+         assumptions=['"finished starting" is judged on the instance view info_map[target][state], not on the true remote state',
+                      'RE-ENTRANT CALL-OUT discipline of contracts/assumed_repo.py FsmOnProcessStateEvent (see C10)',
+                      'shape validity: planned groups are list objects distinct from the in-flight list'])
+register('C09', 'proof',
+         'Clause 1 proved per call on the real source. ApplicationJobs.next (stop variant, pickup_logic = max resolved from '
+         'the single constructor assignment): nothing is triggered while a command is in flight; sequence numbers leave the '
+         'plan in DEcreasing order; commands sharing a sequence number are passed to process_job in the same call; returns '
+         'with a command in flight or an empty plan - fully discharged for the stop variant. ApplicationStopJobs.process_job: '
+         'exactly one send_stop_process(identifier, namespec) iff process.running_on(identifier), nothing otherwise. '
+         'ProcessStopCommand.on_event: SUCCESS iff the target reports a stopped state. fail_command forces STOPPED.',
+         not_decided=['"reaches the Master", exactly-once delivery to every live instance, true process states',
+                      'clause 2 (on_restart / on_shutdown re-routing) and the ending states: other agent (statemachine.py)',
+                      'Stopper.store_application (commands only for running_identifiers), Commander.next at application level: '
+                      'no contract yet. A re-entrancy defect of Commander.next on the restart path is reproduced natively '
+                      '(findings/C09_restart_keyerror_demo.py: KeyError escapes fsm.on_process_state_event) but not yet an '
+                      'obligation',
+                      'same ghost-history remark as C03'],
+         assumptions=['RE-ENTRANT CALL-OUT discipline of contracts/assumed_repo.py FsmOnProcessStateEvent (see C10)',
+                      'stop commands are built with their target (ProcessStopCommand.__init__)'])
 register('C07', 'proof',
          'Detection predicate is_inactive proved equal to the statement for all states and counters.',
          assumptions=['the local TICK reaches on_tick (Supervisor event loop)'])
